@@ -1577,3 +1577,13 @@ fn k_fill_rect_general_clip() { fill_rect_general(0); fill_rect_general(1); }
 #[kani::stub(DrawTarget::composite, composite_rec)]
 #[kani::stub(DrawTarget::fill, fill_rec)]
 fn k_fill_rect_general_xf() { fill_rect_general(2); fill_rect_general(3); }
+
+// ------------------------------------------------------------------ Kani function contracts on real fns (attrs.toml)
+// @ob id=K.contract_to_u32 props=C19,C03 kind=complete tier=quick timeout=300 fns=SolidSource::to_u32
+// @+ desc="Kani function contract attached to the real SolidSource::to_u32: result == (A<<24)|(R<<16)|(G<<8)|B, proved by proof_for_contract for every colour"
+#[kani::proof_for_contract(SolidSource::to_u32)]
+fn k_contract_to_u32() {
+    let c = SolidSource { r: kani::any(), g: kani::any(), b: kani::any(), a: kani::any() };
+    c.to_u32();
+    kani::cover!(true);
+}
